@@ -17,7 +17,10 @@ from props.c12 import enc_str, enc_target, s_units, rnd_scalar
 PROP = "C18"
 PROP_V = "Properties_C18.v"
 
-SAFE_KEYS = ["y", "m", "k1", "zz", "a", "b2", "Q"]
+# incl. sibling names that differ from another key only in their FIRST unit: StringUtils::Hash does not
+# mix the first unit of keys of length >= 2, so "uid"/"gid"/"pid" and "k1"/"j1" collide on the full
+# hash -- a lookup that trusts the hash alone files records under the wrong member
+SAFE_KEYS = ["y", "m", "k1", "zz", "a", "b2", "Q", "uid", "gid", "pid", "j1", "az"]
 WILD_KEYS = [[], [107, 0, 120], [34, 113], [233], [32], [121], [109]]
 
 
